@@ -798,6 +798,34 @@ pub fn warm_kernel() -> String {
     let s8 = js.sload(CALLER, U256::from(3), &mut db).unwrap();
     let okc = s6.data.is_zero() && s6.is_cold && s7.data.is_zero() && s7.is_cold && !s8.is_cold && jc1 == jc0 + 2;
     out += &format!("[sload created slot2=({},{}) slot3=({},{}) again={} journal={}->{}{}] ", s6.data, s6.is_cold, s7.data, s7.is_cold, s8.is_cold, jc0, jc1, if okc { "" } else { " MISMATCH" });
+    // ---- initial_account_load: every listed key ends up loaded (warm), whether or not the account was already in the state
+    {
+        let mut db = CacheDB::new(EmptyDB::default());
+        db.insert_account_info(CALLER, AccountInfo { nonce: 1, balance: U256::from(5), code_hash: B256::default(), code: None });
+        db.insert_account_storage(CALLER, U256::from(1), U256::from(7)).unwrap();
+        db.insert_account_storage(CALLER, U256::from(2), U256::from(8)).unwrap();
+        let mut js = JournaledState::new(SpecId::CANCUN, HashSet::default());
+        let _ = js.initial_account_load(CALLER, [U256::from(1)], &mut db).unwrap();
+        let _ = js.initial_account_load(CALLER, [U256::from(2)], &mut db).unwrap(); // second access-list item for the same address
+        let a = js.sload(CALLER, U256::from(1), &mut db).unwrap();
+        let b = js.sload(CALLER, U256::from(2), &mut db).unwrap();
+        out += &format!("[initial_account_load same address twice key1=({},{}) key2=({},{}){}] ", a.data, a.is_cold, b.data, b.is_cold,
+            if !a.is_cold && !b.is_cold && a.data == U256::from(7) && b.data == U256::from(8) { "" } else { " MISMATCH" });
+        let mut js = JournaledState::new(SpecId::CANCUN, HashSet::default());
+        let _ = js.load_account(CALLER, &mut db).unwrap(); // e.g. the sender, loaded during validation
+        let _ = js.initial_account_load(CALLER, [U256::from(1)], &mut db).unwrap();
+        let a = js.sload(CALLER, U256::from(1), &mut db).unwrap();
+        out += &format!("[initial_account_load already loaded account key1=({},{}){}] ", a.data, a.is_cold, if !a.is_cold && a.data == U256::from(7) { "" } else { " MISMATCH" });
+        // a slot that is already present keeps its (possibly written) value
+        js.state.get_mut(&CALLER).unwrap().storage.get_mut(&U256::from(1)).unwrap().present_value = U256::from(9);
+        let _ = js.initial_account_load(CALLER, [U256::from(1)], &mut db).unwrap();
+        let a = js.sload(CALLER, U256::from(1), &mut db).unwrap();
+        out += &format!("[initial_account_load present slot kept got={}{}] ", a.data, if a.data == U256::from(9) { "" } else { " MISMATCH" });
+        let missing = address!("00000000000000000000000000000000000000ab");
+        let acc_status = { let acc = js.initial_account_load(missing, [U256::from(3)], &mut db).unwrap(); acc.is_loaded_as_not_existing() };
+        let c = js.sload(missing, U256::from(3), &mut db).unwrap();
+        out += &format!("[initial_account_load missing account not_existing={} key3=({},{}){}] ", acc_status, c.data, c.is_cold, if acc_status && !c.is_cold && c.data.is_zero() { "" } else { " MISMATCH" });
+    }
     // ---- load_accounts: what is pre-warmed per fork
     for (spec, want_cb, want_bh) in [(SpecId::LONDON, false, false), (SpecId::MERGE, false, false), (SpecId::SHANGHAI, true, false), (SpecId::CANCUN, true, false), (SpecId::PRAGUE, true, true)] {
         let mut db = CacheDB::new(EmptyDB::default());
@@ -816,5 +844,260 @@ pub fn warm_kernel() -> String {
         let others = set.len() - cb as usize - bh as usize;
         out += &format!("[load_accounts {:?} ok={} coinbase={} blockhash={} others={}{}] ", spec, r.is_ok(), cb, bh, others, if cb == want_cb && bh == want_bh && others == 0 && r.is_ok() { "" } else { " MISMATCH" });
     }
+    out
+}
+
+// ---------------------------------------------------------------- create onto an address whose storage is non-empty (EIP-7610)
+/// Database whose every address has storage; the target's account info is chosen per scenario.
+#[derive(Clone)]
+pub struct StorageEverywhere(pub Option<AccountInfo>, pub Address);
+impl Database for StorageEverywhere {
+    type Error = core::convert::Infallible;
+    fn basic(&mut self, a: Address) -> Result<Option<AccountInfo>, Self::Error> {
+        if a == CALLER {
+            return Ok(Some(AccountInfo { nonce: 0, balance: U256::from(1_000_000u64), code_hash: revm::primitives::KECCAK_EMPTY, code: None }));
+        }
+        Ok(if a == self.1 { self.0.clone() } else { None })
+    }
+    fn code_by_hash(&mut self, _h: B256) -> Result<Bytecode, Self::Error> {
+        Ok(Bytecode::default())
+    }
+    fn has_storage(&mut self, _a: Address) -> Result<bool, Self::Error> {
+        Ok(true)
+    }
+    fn storage(&mut self, _a: Address, _i: U256) -> Result<U256, Self::Error> {
+        Ok(U256::from(7))
+    }
+    fn block_hash(&mut self, _n: u64) -> Result<B256, Self::Error> {
+        Ok(B256::ZERO)
+    }
+}
+
+/// Runs the create path `func` onto a target that has storage (database says so) in three account shapes; every one must collide.
+pub fn create_collision(func: &str) -> String {
+    use revm::interpreter::{EOFCreateInputs, EOFCreateKind, InstructionResult};
+    use revm::primitives::Eof;
+    let mut out = String::new();
+    let shapes: [(&str, Option<AccountInfo>); 3] = [
+        ("absent", None),
+        ("empty", Some(AccountInfo { nonce: 0, balance: U256::ZERO, code_hash: revm::primitives::KECCAK_EMPTY, code: None })),
+        ("funded", Some(AccountInfo { nonce: 0, balance: U256::from(5), code_hash: revm::primitives::KECCAK_EMPTY, code: None })),
+    ];
+    for (name, info) in shapes {
+        let created = if func == "make_create_frame" { CALLER.create(0) } else { address!("00000000000000000000000000000000000000ee") };
+        let mut c = EvmContext::new(StorageEverywhere(info, created));
+        c.inner.journaled_state = JournaledState::new(SpecId::OSAKA, HashSet::default());
+        let _ = c.inner.journaled_state.load_account(CALLER, &mut c.inner.db);
+        let r = if func == "make_create_frame" {
+            let inputs = CreateInputs { caller: CALLER, scheme: CreateScheme::Create, value: U256::ZERO, init_code: Bytes::from_static(&[0x00]), gas_limit: 100_000 };
+            c.make_create_frame(SpecId::OSAKA, &inputs).expect("no db error")
+        } else {
+            let inputs = EOFCreateInputs { caller: CALLER, value: U256::ZERO, gas_limit: 100_000, kind: EOFCreateKind::Opcode { initcode: Eof::default(), input: Bytes::new(), created_address: created } };
+            c.make_eofcreate_frame(SpecId::OSAKA, &inputs).expect("no db error")
+        };
+        let res = match &r {
+            FrameOrResult::Result(fr) => format!("{:?}", fr.interpreter_result().result),
+            FrameOrResult::Frame(_) => "frame".to_string(),
+        };
+        let ok = res == format!("{:?}", InstructionResult::CreateCollision);
+        out += &format!("[{} target={} outcome={}{}] ", func, name, res, if ok { "" } else { " MISMATCH" });
+    }
+    out
+}
+
+// ---------------------------------------------------------------- the guard of create_account_checkpoint, all eight input combinations
+pub fn create_guard() -> String {
+    use revm::interpreter::InstructionResult;
+    let mut out = String::new();
+    let target = address!("00000000000000000000000000000000000000ee");
+    for bits in 0u8..8 {
+        let (code, nonce, storage) = (bits & 1 != 0, bits & 2 != 0, bits & 4 != 0);
+        let mut db = CacheDB::new(EmptyDB::default());
+        db.insert_account_info(CALLER, AccountInfo { nonce: 0, balance: U256::from(100), code_hash: revm::primitives::KECCAK_EMPTY, code: None });
+        let code_bc = Bytecode::new_legacy(Bytes::from_static(&[0x00]));
+        db.insert_account_info(target, AccountInfo { nonce: if nonce { 1 } else { 0 }, balance: U256::from(3),
+            code_hash: if code { code_bc.hash_slow() } else { revm::primitives::KECCAK_EMPTY }, code: if code { Some(code_bc) } else { None } });
+        let mut js = JournaledState::new(SpecId::CANCUN, HashSet::default());
+        let _ = js.load_account(CALLER, &mut db);
+        let _ = js.load_account(target, &mut db);
+        let depth0 = js.depth();
+        let j0: usize = js.journal.iter().map(|v| v.len()).sum();
+        let r = js.create_account_checkpoint(CALLER, target, storage, U256::from(5), SpecId::CANCUN);
+        let want_collision = code || nonce || storage;
+        let t = js.state.get(&target).unwrap();
+        let c = js.state.get(&CALLER).unwrap();
+        let ok = if want_collision {
+            let j1: usize = js.journal.iter().map(|v| v.len()).sum();
+            r == Err(InstructionResult::CreateCollision) && js.depth() == depth0 && j1 == j0 && t.info.balance == U256::from(3) && c.info.balance == U256::from(100)
+                && !t.is_created() && t.info.nonce == (if nonce { 1 } else { 0 })
+        } else {
+            r.is_ok() && js.depth() == depth0 + 1 && t.is_created() && t.info.balance == U256::from(8) && c.info.balance == U256::from(95) && t.info.nonce == 1
+        };
+        out += &format!("[create_guard code={} nonce={} storage={} result={:?} depth={}->{} target_balance={} caller_balance={}{}] ", code, nonce, storage,
+            r.as_ref().map(|_| "checkpoint").map_err(|e| format!("{e:?}")), depth0, js.depth(), t.info.balance, c.info.balance, if ok { "" } else { " MISMATCH" });
+    }
+    out
+}
+
+// ---------------------------------------------------------------- block-state database: per-account commit step and reads
+pub fn block_state_kernel() -> String {
+    use revm::db::states::{AccountStatus as St, CacheAccount, PlainAccount, StorageSlot};
+    use revm::primitives::{Account, AccountStatus as Flags, EvmStorageSlot, HashMap, KECCAK_EMPTY};
+    use revm::DatabaseCommit;
+    let mut out = String::new();
+    let x = AccountInfo { nonce: 3, balance: U256::from(10), code_hash: KECCAK_EMPTY, code: None };
+    let y = AccountInfo { nonce: 4, balance: U256::from(20), code_hash: KECCAK_EMPTY, code: None };
+    let empty = AccountInfo::default();
+    let mut written: HashMap<U256, StorageSlot> = HashMap::default();
+    written.insert(U256::from(1), StorageSlot::new_changed(U256::ZERO, U256::from(5)));
+    let mut old_storage: HashMap<U256, U256> = HashMap::default();
+    old_storage.insert(U256::from(2), U256::from(7));
+    let loaded = || CacheAccount { account: Some(PlainAccount { info: x.clone(), storage: old_storage.clone() }), status: St::Loaded };
+    let absent = || CacheAccount { account: None, status: St::LoadedNotExisting };
+    let loaded_empty = || CacheAccount { account: Some(PlainAccount { info: empty.clone(), storage: HashMap::default() }), status: St::LoadedEmptyEIP161 };
+    let tag = |ok: bool| if ok { "" } else { " MISMATCH" };
+
+    // ---- CacheAccount::selfdestruct
+    let mut a = loaded();
+    let t = a.selfdestruct();
+    let ok = a.account.is_none() && a.status == St::Destroyed && matches!(&t, Some(t) if t.info.is_none() && t.previous_info == Some(x.clone()) && t.previous_status == St::Loaded && t.status == St::Destroyed && t.storage_was_destroyed && t.storage.is_empty());
+    out += &format!("[CacheAccount::selfdestruct from Loaded status={:?} account={}{}] ", a.status, a.account.is_some(), tag(ok));
+    let mut a = absent();
+    let t = a.selfdestruct();
+    out += &format!("[CacheAccount::selfdestruct from LoadedNotExisting status={:?} transition={}{}] ", a.status, t.is_some(), tag(t.is_none() && a.account.is_none() && a.status == St::LoadedNotExisting));
+
+    // ---- CacheAccount::touch_empty_eip161
+    let mut a = loaded_empty();
+    let t = a.touch_empty_eip161();
+    let ok = a.account.is_none() && a.status == St::Destroyed && matches!(&t, Some(t) if t.info.is_none() && t.previous_info == Some(empty.clone()) && t.previous_status == St::LoadedEmptyEIP161 && t.status == St::Destroyed && t.storage_was_destroyed);
+    out += &format!("[CacheAccount::touch_empty_eip161 from LoadedEmptyEIP161 status={:?} account={}{}] ", a.status, a.account.is_some(), tag(ok));
+    for (name, st0) in [("LoadedNotExisting", St::LoadedNotExisting), ("Destroyed", St::Destroyed), ("DestroyedAgain", St::DestroyedAgain)] {
+        let mut a = CacheAccount { account: None, status: st0 };
+        let t = a.touch_empty_eip161();
+        out += &format!("[CacheAccount::touch_empty_eip161 from {} transition={}{}] ", name, t.is_some(), tag(t.is_none() && a.account.is_none()));
+    }
+    let mut a = CacheAccount { account: Some(PlainAccount { info: empty.clone(), storage: HashMap::default() }), status: St::InMemoryChange };
+    let t = a.touch_empty_eip161();
+    out += &format!("[CacheAccount::touch_empty_eip161 from InMemoryChange transition={}{}] ", t.is_some(), tag(matches!(&t, Some(t) if t.previous_status == St::InMemoryChange && t.previous_info == Some(empty.clone())) && a.account.is_none() && a.status == St::Destroyed));
+
+    // ---- CacheAccount::newly_created
+    let mut a = absent();
+    let t = a.newly_created(y.clone(), written.clone());
+    let ok = a.status == St::InMemoryChange && matches!(&a.account, Some(p) if p.info == y && p.storage.len() == 1 && p.storage.get(&U256::from(1)) == Some(&U256::from(5)))
+        && t.info == Some(y.clone()) && t.previous_info.is_none() && t.previous_status == St::LoadedNotExisting && t.status == St::InMemoryChange && !t.storage_was_destroyed && t.storage == written;
+    out += &format!("[CacheAccount::newly_created from LoadedNotExisting status={:?}{}] ", a.status, tag(ok));
+    let mut a = CacheAccount { account: None, status: St::Destroyed };
+    let t = a.newly_created(y.clone(), written.clone());
+    out += &format!("[CacheAccount::newly_created from Destroyed status={:?}{}] ", a.status, tag(a.status == St::DestroyedChanged && t.previous_status == St::Destroyed && t.previous_info.is_none() && a.account.as_ref().map(|p| p.info.clone()) == Some(y.clone())));
+    let mut a = loaded();
+    let t = a.newly_created(y.clone(), written.clone());
+    out += &format!("[CacheAccount::newly_created from Loaded status={:?}{}] ", a.status, tag(t.previous_info == Some(x.clone()) && t.previous_status == St::Loaded && matches!(&a.account, Some(p) if p.info == y && p.storage.len() == 1)));
+
+    // ---- CacheAccount::touch_create_pre_eip161
+    let mut a = loaded_empty();
+    let t = a.touch_create_pre_eip161(written.clone());
+    out += &format!("[CacheAccount::touch_create_pre_eip161 from LoadedEmptyEIP161 transition={} account={} status={:?}{}] ", t.is_some(), a.account.is_some(), a.status, tag(t.is_none() && a.account.is_some() && a.status == St::LoadedEmptyEIP161));
+    let mut a = CacheAccount { account: Some(PlainAccount { info: empty.clone(), storage: HashMap::default() }), status: St::DestroyedChanged };
+    let t = a.touch_create_pre_eip161(written.clone());
+    out += &format!("[CacheAccount::touch_create_pre_eip161 from DestroyedChanged(empty) transition={} account={}{}] ", t.is_some(), a.account.is_some(), tag(t.is_none() && a.account.is_some() && a.status == St::DestroyedChanged));
+    let mut a = absent();
+    let t = a.touch_create_pre_eip161(written.clone());
+    let ok = a.status == St::InMemoryChange && matches!(&a.account, Some(p) if p.info == empty && p.storage.get(&U256::from(1)) == Some(&U256::from(5)))
+        && matches!(&t, Some(t) if t.info == Some(empty.clone()) && t.previous_info.is_none() && t.previous_status == St::LoadedNotExisting && t.status == St::InMemoryChange && !t.storage_was_destroyed && t.storage == written);
+    out += &format!("[CacheAccount::touch_create_pre_eip161 from LoadedNotExisting status={:?}{}] ", a.status, tag(ok));
+
+    // ---- CacheAccount::change
+    let mut a = loaded();
+    let t = a.change(y.clone(), written.clone());
+    let ok = a.status == St::Changed && matches!(&a.account, Some(p) if p.info == y && p.storage.len() == 2 && p.storage.get(&U256::from(2)) == Some(&U256::from(7)) && p.storage.get(&U256::from(1)) == Some(&U256::from(5)))
+        && t.info == Some(y.clone()) && t.previous_info == Some(x.clone()) && t.previous_status == St::Loaded && t.status == St::Changed && !t.storage_was_destroyed && t.storage == written;
+    out += &format!("[CacheAccount::change from Loaded status={:?}{}] ", a.status, tag(ok));
+    let mut a = absent();
+    let t = a.change(y.clone(), written.clone());
+    out += &format!("[CacheAccount::change from LoadedNotExisting status={:?}{}] ", a.status, tag(a.status == St::InMemoryChange && t.previous_info.is_none() && t.previous_status == St::LoadedNotExisting && t.info == Some(y.clone()) && matches!(&a.account, Some(p) if p.info == y && p.storage.len() == 1)));
+    let mut a = CacheAccount { account: Some(PlainAccount { info: AccountInfo { nonce: 0, balance: U256::from(1), code_hash: KECCAK_EMPTY, code: None }, storage: HashMap::default() }), status: St::Loaded };
+    let _ = a.change(y.clone(), HashMap::default());
+    out += &format!("[CacheAccount::change from Loaded(no nonce, no code) status={:?}{}] ", a.status, tag(a.status == St::InMemoryChange));
+
+    // ---- apply_account_state through State::commit
+    let target = address!("00000000000000000000000000000000000000d1");
+    let mk = |clear: bool, info: Option<AccountInfo>| {
+        let mut db = CacheDB::new(EmptyDB::default());
+        if let Some(i) = info {
+            db.insert_account_info(target, i);
+            db.insert_account_storage(target, U256::from(9), U256::from(99)).unwrap();
+        }
+        let b = BlockState::builder().with_database(db);
+        let mut s = if clear { b.build() } else { b.without_state_clear().build() };
+        let _ = s.load_cache_account(target).unwrap();
+        s
+    };
+    let evm_acc = |info: AccountInfo, flags: Flags| {
+        let mut st: HashMap<U256, EvmStorageSlot> = HashMap::default();
+        st.insert(U256::from(1), EvmStorageSlot { original_value: U256::from(5), present_value: U256::from(5), is_cold: false }); // unchanged: must not be written
+        st.insert(U256::from(2), EvmStorageSlot { original_value: U256::ZERO, present_value: U256::from(8), is_cold: false });
+        let mut m: HashMap<Address, Account> = HashMap::default();
+        m.insert(target, Account { info, storage: st, status: flags });
+        m
+    };
+    let mut s = mk(true, Some(x.clone()));
+    s.commit(evm_acc(y.clone(), Flags::Loaded));
+    let c = s.cache.accounts.get(&target).unwrap();
+    out += &format!("[apply_account_state untouched status={:?}{}] ", c.status, tag(c.status == St::Loaded && c.account_info() == Some(x.clone())));
+    let mut s = mk(true, Some(x.clone()));
+    s.commit(evm_acc(y.clone(), Flags::Touched | Flags::SelfDestructed | Flags::Created));
+    let c = s.cache.accounts.get(&target).unwrap();
+    out += &format!("[apply_account_state selfdestructed+created status={:?}{}] ", c.status, tag(c.status == St::Destroyed && c.account.is_none()));
+    let mut s = mk(true, None);
+    s.commit(evm_acc(y.clone(), Flags::Touched | Flags::Created));
+    let c = s.cache.accounts.get(&target).unwrap();
+    let okst = matches!(&c.account, Some(p) if p.info == y && p.storage.len() == 1 && p.storage.get(&U256::from(2)) == Some(&U256::from(8)));
+    out += &format!("[apply_account_state created status={:?} slots={}{}] ", c.status, c.account.as_ref().map(|p| p.storage.len()).unwrap_or(0), tag(c.status == St::InMemoryChange && okst));
+    let mut s = mk(true, Some(empty.clone()));
+    s.commit(evm_acc(empty.clone(), Flags::Touched));
+    let c = s.cache.accounts.get(&target).unwrap();
+    out += &format!("[apply_account_state empty, state clear status={:?} account={}{}] ", c.status, c.account.is_some(), tag(c.status == St::Destroyed && c.account.is_none()));
+    let mut s = mk(false, None);
+    s.commit(evm_acc(empty.clone(), Flags::Touched));
+    let c = s.cache.accounts.get(&target).unwrap();
+    out += &format!("[apply_account_state empty, before state clear status={:?} account={}{}] ", c.status, c.account.is_some(), tag(c.status == St::InMemoryChange && c.account.is_some()));
+    let mut s = mk(false, Some(empty.clone()));
+    s.commit(evm_acc(empty.clone(), Flags::Touched));
+    let b1 = s.basic(target).unwrap();
+    out += &format!("[apply_account_state empty existing, before state clear basic={}{}] ", b1.is_some(), tag(b1.is_some()));
+    let mut s = mk(true, Some(x.clone()));
+    s.commit(evm_acc(y.clone(), Flags::Touched));
+    let c = s.cache.accounts.get(&target).unwrap();
+    let okst = matches!(&c.account, Some(p) if p.info == y && p.storage.len() == 1 && p.storage.get(&U256::from(2)) == Some(&U256::from(8)));
+    out += &format!("[apply_account_state changed status={:?}{}] ", c.status, tag(c.status == St::Changed && okst));
+
+    // ---- State::storage
+    let v1 = s.storage(target, U256::from(9)).unwrap(); // Changed: storage not known -> database
+    let v2 = s.storage(target, U256::from(9)).unwrap();
+    let v3 = s.storage(target, U256::from(2)).unwrap(); // cached slot
+    out += &format!("[State::storage changed account db_slot={} again={} cached={}{}] ", v1, v2, v3, tag(v1 == U256::from(99) && v2 == v1 && v3 == U256::from(8)));
+    let mut s = mk(true, Some(x.clone()));
+    s.commit(evm_acc(y.clone(), Flags::Touched | Flags::Created));
+    let v = s.storage(target, U256::from(9)).unwrap(); // created in memory: the database's old slot must not be read
+    out += &format!("[State::storage created account stale_db_slot={}{}] ", v, tag(v.is_zero()));
+    let mut s = mk(true, Some(x.clone()));
+    s.commit(evm_acc(y.clone(), Flags::Touched | Flags::SelfDestructed));
+    s.commit(evm_acc(y.clone(), Flags::Touched)); // balance sent to the destroyed address afterwards
+    let v = s.storage(target, U256::from(9)).unwrap();
+    out += &format!("[State::storage destroyed then changed stale_db_slot={}{}] ", v, tag(v.is_zero()));
+    let mut s = mk(true, Some(x.clone()));
+    let v = s.storage(target, U256::from(9)).unwrap();
+    out += &format!("[State::storage loaded account db_slot={}{}] ", v, tag(v == U256::from(99)));
+
+    // ---- load_cache_account
+    for (name, info, want) in [("absent", None, St::LoadedNotExisting), ("empty", Some(empty.clone()), St::LoadedEmptyEIP161), ("existing", Some(x.clone()), St::Loaded)] {
+        let s = mk(true, info.clone());
+        let c = s.cache.accounts.get(&target).unwrap();
+        out += &format!("[load_cache_account {} status={:?}{}] ", name, c.status, tag(c.status == want && c.account_info() == info.filter(|_| true)));
+    }
+    let mut s = mk(true, Some(x.clone()));
+    s.database.insert_account_info(target, y.clone()); // the cached answer must win over a later database change
+    let c = s.load_cache_account(target).unwrap();
+    out += &format!("[load_cache_account cached reuse{}] ", tag(c.account_info() == Some(x.clone())));
     out
 }
